@@ -301,6 +301,21 @@ carquet_status_t carquet_page_writer_add_values(
         return CARQUET_ERROR_INVALID_ARGUMENT;
     }
 
+    /* A type without an encoder below (INT96) is refused before levels and
+     * counts are recorded for values that will never be written */
+    switch (writer->type) {
+        case CARQUET_PHYSICAL_BOOLEAN:
+        case CARQUET_PHYSICAL_INT32:
+        case CARQUET_PHYSICAL_INT64:
+        case CARQUET_PHYSICAL_FLOAT:
+        case CARQUET_PHYSICAL_DOUBLE:
+        case CARQUET_PHYSICAL_BYTE_ARRAY:
+        case CARQUET_PHYSICAL_FIXED_LEN_BYTE_ARRAY:
+            break;
+        default:
+            return CARQUET_ERROR_NOT_IMPLEMENTED;
+    }
+
     /* Count nulls and non-null values */
     int64_t num_non_null = num_values;
     if (def_levels && writer->max_def_level > 0) {
